@@ -39,6 +39,10 @@ MEMO_OWNERS = {"_sequence": {"extract_sequence"}, "_single_interval_store": {"_s
                "_alternative_genomic_sequence": {"alternative_genomic_sequence"},
                "_parent_with_alternative_sequence": {"parent_with_alternative_sequence"},
                "_chunk_relative_codon_locations_cached": {"chunk_relative_codon_locations"}}
+# accessors (besides the owner) that may READ a memo slot: CDSInterval.extract_sequence switches implementation on the
+# codon-cache flag (both implementations are proved / bounded-checked to agree: C05, F-C10-2).  Any other read makes an
+# answer depend on what was asked before.
+MEMO_READERS = {"_chunk_relative_codon_locations_cached": {"extract_sequence"}}
 VALUE_EQ_ATTRS = {"parent", "location", "sequence", "chromosome_location", "chunk_relative_location", "_location"}
 SET_ATTRS_HINT = {"qualifiers", "feature_types", "variant_types", "identifiers", "children_guids"}
 
@@ -182,7 +186,22 @@ class FunctionAnalysis:
         self.block(self.node.body)
         self.kind_obligation()
         self.hash_obligation()
+        self.memo_read_obligation()
         return self.obligations
+
+    def memo_read_obligation(self):
+        """no accessor other than the owner (and the declared readers) may look at a memo slot: a value that depends on
+        whether a cache has been filled depends on the call history."""
+        if self.is_ctor:
+            return
+        for n in ast.walk(self.node):
+            if isinstance(n, ast.Attribute) and isinstance(n.ctx, ast.Load) and n.attr in MEMO_SLOTS \
+                    and isinstance(n.value, ast.Name) and n.value.id == "self":
+                allowed = set(MEMO_OWNERS.get(n.attr, ())) | set(MEMO_READERS.get(n.attr, ()))
+                if self.f.name not in allowed:
+                    self.obligations.append(Ob(self.site("frame", f"reads-memo-state self.{n.attr}"), False,
+                                               f"memo slot {n.attr} read outside its owning accessor {sorted(allowed)}: "
+                                               "the answer depends on the state of a cache"))
 
     def _fields_read(self, f, seen=None):
         """names X of ``self.X`` loads in method f, following calls ``self.m(...)`` to methods of the class."""
